@@ -8,7 +8,7 @@ TRUSTED = ["wall-clock Timeout is outside the model (Sim.v has no wall clock): i
            "panic payloads are integers carried by a harness type; attribution uses the model names m<i>"]
 TRUSTED = TRUSTED + strprops.TRUSTED
 ASSUMPTIONS = ["one fault per case"]
-ORACLES = (oracles.o_harness, oracles.o_terminated, oracles.o_time, oracles.o_attribution, oracles.o_nonfatal)
+ORACLES = (oracles.o_harness, oracles.o_terminated, oracles.o_time, oracles.o_attribution, oracles.o_nonfatal, oracles.o_norecip_query)
 
 
 def nontrivial(c, mobs):
